@@ -28,6 +28,8 @@ ASSUMPTIONS = [
     'float32 casts are identities; exact rational arithmetic',
     'forms added after seeding rounds: two exports of one model with different factors, a layout where L1 and Euclidean rankings differ, curated dataset without features (NaN depths are failed obligations), 8-bit probe table with raw ids up to 400',
     'round 7: values of clusters.waveforms and clusters.amps for curated datasets (ids concretised per path): unwhitened cluster waveform of the model (C08) x mean stored amplitude x unit factor',
+    'round 8: two probes of two channels each lying side by side (1 um apart in x, so the other probe\'s channels are nearer than the own '
+    'probe\'s), symbolic template values (the peak may fall on either probe)',
 ]
 STUBS = ['virtual file system', 'tqdm', 'np.random.choice (arbitrary subset)']
 OUTSIDE = ['float rounding', 'symbolic template values for the rescaled waveforms', 'sparse templates']
